@@ -1,3 +1,4 @@
+mod c02;
 mod gen;
 mod inv;
 mod model;
@@ -7,6 +8,7 @@ mod parts;
 mod props;
 mod runner;
 mod store;
+mod unit;
 mod world;
 
 use runner::{Violation, WorkerResult};
@@ -16,7 +18,9 @@ use std::io::Write;
 use std::process::{Command, Stdio};
 use std::time::Instant;
 
-const VERIF: &str = "/verif";
+fn verif_root() -> String {
+    std::env::var("VERIF_ROOT").unwrap_or_else(|_| "/verif".to_string())
+}
 
 fn arg_after(args: &[String], flag: &str) -> Option<String> {
     args.iter().position(|a| a == flag).and_then(|i| args.get(i + 1).cloned())
@@ -71,7 +75,7 @@ struct Known {
 
 fn known_findings() -> Vec<Known> {
     let mut v = vec![];
-    if let Ok(s) = std::fs::read_to_string(format!("{}/known_findings.txt", VERIF)) {
+    if let Ok(s) = std::fs::read_to_string(format!("{}/known_findings.txt", verif_root())) {
         for line in s.lines() {
             let line = line.trim();
             if let Some(rest) = line.strip_prefix("known:") {
@@ -95,7 +99,7 @@ fn check_main(args: &[String]) {
     let t0 = Instant::now();
     world::install_panic_hook();
     let exe = std::env::current_exe().unwrap();
-    let scratch = format!("{}/.scratch/{}", VERIF, std::process::id());
+    let scratch = format!("{}/.scratch/{}", verif_root(), std::process::id());
     std::fs::create_dir_all(&scratch).unwrap();
     let known = known_findings();
 
@@ -108,7 +112,7 @@ fn check_main(args: &[String]) {
     // 1. saved replays (regression tier)
     let mut replayed = 0;
     let mut violations: Vec<(Violation, String)> = vec![];
-    let rdir = format!("{}/replays/{}", VERIF, prop);
+    let rdir = format!("{}/replays/{}", verif_root(), prop);
     if let Ok(rd) = std::fs::read_dir(&rdir) {
         let mut files: Vec<_> = rd.filter_map(|e| e.ok()).map(|e| e.path()).filter(|p| p.extension().map_or(false, |x| x == "json")).collect();
         files.sort();
@@ -194,7 +198,7 @@ fn check_main(args: &[String]) {
     // 3. violations -> replay files
     for (part, r) in &merged {
         if let Some(v) = &r.violation {
-            let dir = format!("{}/replays/found/{}", VERIF, prop);
+            let dir = format!("{}/replays/found/{}", verif_root(), prop);
             std::fs::create_dir_all(&dir).unwrap();
             let path = format!("{}/{}-{}-{}.json", dir, part, seed, &model::sha_hex(v.msg.as_bytes())[..8]);
             let mut f = std::fs::File::create(&path).unwrap();
@@ -209,7 +213,7 @@ fn check_main(args: &[String]) {
     for (part, r) in &merged {
         per_part.insert(
             part.clone(),
-            json!({"evaluations": r.evaluations, "distinct_nontrivial": r.nontrivial_hashes.len(), "aborted_cases": r.aborted, "steps": r.steps, "counters": r.counters, "cases_with": r.cases_with, "exhaustive": r.exhaustive, "notes": r.notes}),
+            json!({"evaluations": r.evaluations, "distinct_nontrivial": r.nontrivial_hashes.len() as u64 + r.nontrivial_count, "aborted_cases": r.aborted, "steps": r.steps, "counters": r.counters, "cases_with": r.cases_with, "exhaustive": r.exhaustive, "notes": r.notes}),
         );
         let mut c = r.clone();
         c.violation = None;
@@ -234,7 +238,7 @@ fn check_main(args: &[String]) {
         "level": level,
         "coverage": {
             "evaluations": total.evaluations,
-            "distinct_nontrivial": total.nontrivial_hashes.len(),
+            "distinct_nontrivial": total.nontrivial_hashes.len() as u64 + total.nontrivial_count,
             "rule": parts::rule(&prop, &tier),
             "samples": total.samples,
             "exhaustive": all_exhaustive,
@@ -248,8 +252,8 @@ fn check_main(args: &[String]) {
         "wall_s": wall,
         "violations": real.len(),
     });
-    std::fs::create_dir_all(format!("{}/evidence", VERIF)).unwrap();
-    std::fs::write(format!("{}/evidence/{}.json", VERIF, prop), serde_json::to_string_pretty(&ev).unwrap()).unwrap();
+    std::fs::create_dir_all(format!("{}/evidence", verif_root())).unwrap();
+    std::fs::write(format!("{}/evidence/{}.json", verif_root(), prop), serde_json::to_string_pretty(&ev).unwrap()).unwrap();
     let _ = std::fs::remove_dir_all(&scratch);
 
     for k in &known_hits {
@@ -260,13 +264,13 @@ fn check_main(args: &[String]) {
         prop,
         tier,
         total.evaluations,
-        total.nontrivial_hashes.len(),
+        total.nontrivial_hashes.len() as u64 + total.nontrivial_count,
         total.aborted,
         replayed,
         wall
     );
     for (part, r) in &merged {
-        println!("  part {}: evaluations={} nontrivial={} steps={}", part, r.evaluations, r.nontrivial_hashes.len(), r.steps);
+        println!("  part {}: evaluations={} nontrivial={} steps={}{}", part, r.evaluations, r.nontrivial_hashes.len() as u64 + r.nontrivial_count, r.steps, if r.exhaustive { " (exhaustive)" } else { "" });
     }
     if !real.is_empty() {
         for (v, path) in &real {
